@@ -16,4 +16,5 @@ def jobs(tier, seed):
     # with a header stored before: the space-before-first option must stop applying
     J += deepen(P, G, 'resp-after-header', lambda n: sc('resp', n, prefix=RESP_LINE + b'a:b\r\n', api='cfg', fl=RESP_HDR_SYM, cap=2),
                 range(3, T(tier, 5, 7) + 1), T(tier, 100, 900), 'response, start line + "a:b" line + every {n}-byte remainder, 4 header options symbolic', 4)
+    if tier == 'thorough': J += sliding_families(P, G, tier)
     return J
